@@ -35,7 +35,7 @@ CHECKS['C18'] = dict(
 CHECKS['C14'] = dict(
     category='other',
     technique='interprocedural effect (mutation) analysis over a typed call graph with fresh-object nesting levels; lemmas on dunder methods, property getters and callable values',
-    text='For each of the 36 read-only entry points the analysis shows that no function reachable from it writes to anything reachable from '
+    text='For each of the ~60 read-only entry points (export/query API, category algebra, pitch helpers) the analysis shows that no function reachable from it writes to anything reachable from '
          'an argument (document, self, caller-supplied option lists), from a module-level mutable or from a class attribute; file output '
          'only where the API promises it. Because there is no write at all, the result holds for every document, option set and call '
          'history, including calls that raise half-way.',
